@@ -349,7 +349,7 @@ func TestVerifC20Sets(t *testing.T) {
 				}
 			}
 			e.count("random_steps", int64(steps))
-			cs.nontrivial(vSetKind, "rand", k)
+			cs.nontrivial(vSetKind, "rand", cs.idx)
 		})
 		idx++
 	}
